@@ -451,14 +451,15 @@ theorem allclose_refl (atol rtol : K) (ha : 0 ≤ atol) (hr : 0 ≤ rtol) : ∀ 
     have h00 : absK (0 : K) = 0 := by simp [absK]
     simp [h00, this, ih]
 
-/-- `__eq__` is reflexive (non-negative tolerances) -/
+/-- `__eq__` (as it is now, `kvEqSym`, and the former one-directional `kvEq`) is reflexive
+(non-negative tolerances) -/
 theorem eq_refl (atol rtol : K) (ha : 0 ≤ atol) (hr : 0 ≤ rtol) (kv : List K) (p : ℕ) :
-    kvEq atol rtol kv p kv p = true := by
-  unfold kvEq
+    kvEqSym atol rtol kv p kv p = true ∧ kvEq atol rtol kv p kv p = true := by
+  unfold kvEqSym kvEq
   simp [allclose_refl atol rtol ha hr]
 
-/-- `__eq__` as coded (`allclose(self.kv, other.kv)`: tolerance `atol + rtol·|other|`) is **not**
-symmetric: witness with the library's tolerances `atol = rtol = 10⁻⁸` in exact arithmetic.  (The
+/-- the former `__eq__` (`allclose(self.kv, other.kv)` only: tolerance `atol + rtol·|other|`; repaired
+in /repo commit 4e760ef after this finding) was **not** symmetric: witness with the library's tolerances `atol = rtol = 10⁻⁸` in exact arithmetic.  (The
 harness exhibits a pair of doubles on the real code: `make_knots(2,0,1,4)` vs
 `make_knots(2,0,1.00000002,4)`.) -/
 theorem eq_not_symm :
@@ -466,8 +467,7 @@ theorem eq_not_symm :
     kvEq (1 / 10^8 : ℚ) (1 / 10^8) [0, 0, 1 + 2/10^8 + 1/10^16, 1 + 2/10^8 + 1/10^16] 1 [0, 0, 1, 1] 1 = false := by
   decide +kernel
 
-/-- the proposed repair (`allclose(a,b) and allclose(b,a)`) is symmetric by construction and still
-reflexive -/
+/-- `__eq__` as it is now (`allclose(a,b) and allclose(b,a)`) is symmetric -/
 theorem eq_sym_repaired (atol rtol : K) (kv1 : List K) (p1 : ℕ) (kv2 : List K) (p2 : ℕ) :
     kvEqSym atol rtol kv1 p1 kv2 p2 = kvEqSym atol rtol kv2 p2 kv1 p1 := by
   unfold kvEqSym
